@@ -72,3 +72,12 @@ Lemma lint_nl_examples :
   /\ lint_nl (fst (dir_with w_bare)) (snd (dir_with w_bare)) 1 = LintReport [(2%N, [])] false
   /\ lint_nl (fst (dir_with w_plain)) [(2%N, mkNL [w_mention] [])] 1 = LintReport [] false.
 Proof. vm_compute. repeat split; reflexivity. Qed.
+
+(** other bytes after the name that are neither a blank nor a word character: colon, no-break space (C2 A0);
+    a comma between names keeps them in one element *)
+Lemma nonblank_is_bare :
+  rules_of [b "-- atlas:nolint: incompatible" ++ nl] = [[]]
+  /\ rules_of [b "-- atlas:nolint" ++ [194; 160]%N ++ b "incompatible" ++ nl] = [[]]
+  /\ rules_of [b "-- atlas:nolint incompatible,DS102" ++ nl] = [b "incompatible,DS102"]
+  /\ silences (rules_of [b "-- atlas:nolint incompatible,DS102" ++ nl]) DS102 = false.
+Proof. vm_compute. repeat split; reflexivity. Qed.
